@@ -185,6 +185,7 @@ def run(ctx):
         cases.append(tc.gen_case(rng, ndim=2 + n % 2, inner=i, outer=o))
     mism = tc.matrix_correspondence(ctx, cases, "C12")
     viol = []
+    nraised = 0
     for n in range(n_real):
         i, o = pairs[(11 * n + 3) % len(pairs)]
         c = tc.gen_case(rng, ndim=2 + n % 2, inner=i, outer=o, steady=False,
@@ -204,6 +205,7 @@ def run(ctx):
                 bad += [("superposition", m, {}) for m in check_superposition(c, rng)]
         except (RuntimeError, ValueError) as e:
             ctx.notes.append("real solve raised (C17 / table range, not C12): %r" % (e,))
+            nraised += 1
             continue
         varies = any(d is not None and k in ("fix", "flux") for k, d in ((c.inner, c.inner_data), (c.outer, c.outer_data))) or c.T0field is not None
         ctx.case(("real", n, c.ndim, c.inner, c.outer), nontrivial=varies,
@@ -212,6 +214,10 @@ def run(ctx):
                          "outer": c.outer, "shifts": shifts, "failures": [b[1] for b in bad[:2]]})
         for what, detail, extra in bad:
             viol.append((c, what, detail, extra))
+    ctx.obligation("the real solver completed on at least 80% of the generated cases (a check that skips everything proves nothing)",
+                   nraised * 5 <= n_real, "%d of %d raised" % (nraised, n_real))
+    if nraised * 5 > n_real:
+        mism = list(mism) + [(cases[0], ["%d of %d real solves raised" % (nraised, n_real)])]
     ctx.obligation("property predicate (rotation equivariance, 1D=2D=3D on symmetric data, superposition) on real solves",
                    not viol, "%d failures; first: %s" % (len(viol), viol[0][1:3] if viol else ""))
     for c, what, detail, extra in viol[:10]:
